@@ -21,6 +21,7 @@ from . import terms as tm
 from . import solve
 from .values import (Sym, SInt, SBool, SStr, SReal, SDec, SErr, Obj, SymSeq, Unsupported,
                      SpecError, dec_term, is_sym)
+from . import dates as _dates  # noqa: F401  (registers datetime / calendar models)
 
 
 class Infeasible(Exception):
@@ -252,11 +253,22 @@ class Ctx:
             self.assume(t)
         return d
 
+    def known(self, cond):
+        """True / False if `cond` (or its negation) is literally on the path, else None."""
+        if cond in self.pc:
+            return True
+        if tm.mk_not(cond) in self.pc:
+            return False
+        return None
+
     def branch(self, cond):
         if isinstance(cond, bool):
             return cond
         if cond.is_const:
             return cond.val
+        k = self.known(cond)     # deterministic in the path condition: identical under replay
+        if k is not None:
+            return k
         return self.decide([[cond], [tm.mk_not(cond)]]) == 0
 
     def choice(self, n):
@@ -853,6 +865,8 @@ class Interp:
     def ex_IfExp(self, e, env):
         if getattr(self.ctx, 'spec_mode', None) is not None:
             c = self.eval(e.test, env)
+            if isinstance(c, SBool) and self.ctx.known(c.t) is not None:
+                c = self.ctx.known(c.t)
             if isinstance(c, SBool):
                 on = 'false' if self.ctx.spec_mode == 'goal' else 'error'
                 box = {}
@@ -1173,6 +1187,9 @@ class Interp:
             return NativeMethod(o, name)
         if isinstance(o, slice) and name in ('start', 'stop', 'step'):
             return getattr(o, name)
+        if type(o).__name__ in ('DateVal', 'DeltaVal'):
+            from . import dates
+            return dates.date_getattr(self, o, name)
         try:
             v = getattr(o, name)
         except AttributeError:
